@@ -128,6 +128,12 @@ def witnesses():
                                               'repo/.github/actions/req/action.yml': REQ_ACTION, 'repo/.github/actions/req/index.js': '// main\n',
                                               'elsewhere/x/keep': ''},
         [WF + 'w.yml', WF + 'v.yml'], chdirs=['repo', '', 'elsewhere/x', 'repo/.github/workflows'])
+    # shared configuration lists rendered in messages (config-variables, runner labels written unsorted) in a multi-file run
+    ucfg = 'config-variables: [zeta, alpha, MID, beta, Omega]\nself-hosted-runner:\n  labels: [zz-runner, aa-runner, mm-*]\n'
+    uw = {WF + '%s.yml' % n: wf(job('j', ['run: echo ${{ vars.NOPE_%s }}' % n.upper(), 'run: echo ${{ vars.OTHER }}']).replace('ubuntu-latest', 'unknown-%s' % n))
+          for n in 'abcd'}
+    uw['repo/.github/actionlint.yaml'] = ucfg
+    add('multi-file-shared-config-lists', uw, [WF + 'a.yml', WF + 'b.yml', WF + 'c.yml', WF + 'd.yml'])
     # multi-file witnesses
     three = {WF + '%s.yml' % n: wf(job('j', ['uses: ./.github/actions/broken', 'run: echo ${{ foo }}'])) for n in 'abc'}
     three['repo/.github/actions/broken/action.yml'] = BROKEN_ACTION
